@@ -24,6 +24,7 @@ package main
 import (
 	"fmt"
 	"math/big"
+	"os"
 	"sort"
 )
 
@@ -82,6 +83,8 @@ func (l *lin) sorted() []*linTerm {
 }
 
 type b2i struct {
+	noNest bool // disable the nested-division rewrite (VERIF_NO_NEST=1)
+
 	st    *Store
 	ub    map[*Term]*big.Int // upper bounds of BV symbols from hypotheses
 	cache map[int]*liftRes
@@ -234,6 +237,20 @@ func (x *b2i) monomial(a, b *Term) *Term {
 
 // quo returns floor(l / m) in normal form (m > 0 constant): multiples of m are pulled out.
 func (x *b2i) quo(l *lin, m *big.Int) *lin {
+	// |l| < m: the quotient is the sign indicator, whatever m is.  Borrow bits taken at different word widths
+	// ((a - b) >> 63 of a 64-bit difference, the wrap of the same difference modulo 2^64) become one atom.
+	if !x.noNest && os.Getenv("VERIF_NO_SIGN") == "" && !l.isConst() {
+		if lo, hi, ok := x.linIv(l); ok && lo.Sign() < 0 && new(big.Int).Neg(m).Cmp(lo) <= 0 && hi.Cmp(m) < 0 {
+			lt := x.term(l)
+			x.addSide(x.st.And(x.st.ILe(x.st.IntConst(new(big.Int).Neg(m)), lt), x.st.ILt(lt, x.st.IntConst(m))))
+			at := x.st.Ite(x.st.ILt(lt, x.st.Inti(0)), x.st.Inti(-1), x.st.Inti(0))
+			if at.IsConst() {
+				return linConst(at.Val)
+			}
+			x.aiv[at.ID] = [2]*big.Int{big.NewInt(-1), big.NewInt(0)}
+			return linAtom(at)
+		}
+	}
 	pulled := linConst(new(big.Int))
 	rem := linConst(new(big.Int))
 	q, r := new(big.Int).DivMod(l.c, m, new(big.Int))
@@ -250,6 +267,27 @@ func (x *b2i) quo(l *lin, m *big.Int) *lin {
 	}
 	if rem.isConst() {
 		return pulled // 0 <= rem.c < m
+	}
+	// nested floor division: floor((R + floor(M / a)) / m) = floor((a R + M) / (a m)) for integer R and a, m > 0.
+	// Two syntactically different ways of taking the same bits of one wide sum (a carry out of bit 56 taken
+	// directly, or as the top of the slice above bit 40) then become the same atom and cancel linearly.
+	if !x.noNest {
+		var pick *linTerm
+		n := 0
+		for _, t := range rem.terms {
+			if t.atom.Op == OIDiv && t.k.Cmp(bigOne) == 0 && t.atom.Args[1].IsConst() && t.atom.Args[1].Val.Sign() > 0 {
+				n++
+				if pick == nil || t.atom.ID < pick.atom.ID {
+					pick = t
+				}
+			}
+		}
+		if n == 1 {
+			a := pick.atom.Args[1].Val
+			inner := x.liftInt(pick.atom.Args[0])
+			rest := rem.sub(linAtom(pick.atom))
+			return pulled.add(x.quo(rest.scale(a).add(inner), new(big.Int).Mul(a, m)))
+		}
 	}
 	// known to lie in [0, m)?  (only from atom intervals; recorded as a side condition)
 	if lo, hi, ok := x.linIv(rem); ok && lo.Sign() >= 0 && hi.Cmp(m) < 0 {
@@ -737,7 +775,7 @@ func (x *b2i) liftInt(t *Term) *lin {
 
 // liftToInt returns Int-only versions of hyps/goal plus the conjunction of no-wrap side conditions.
 func (st *Store) liftToInt(hyps []*Term, goal *Term, abstractMonos bool) (nh []*Term, ng *Term, side *Term, ok bool, why string) {
-	x := &b2i{st: st, ub: map[*Term]*big.Int{}, cache: map[int]*liftRes{}, vars: map[*Term]*Term{}, ok: true,
+	x := &b2i{noNest: os.Getenv("VERIF_NO_NEST") != "", st: st, ub: map[*Term]*big.Int{}, cache: map[int]*liftRes{}, vars: map[*Term]*Term{}, ok: true,
 		sideK: map[int]bool{}, monos: map[int]*Term{}, aiv: map[int][2]*big.Int{}, bcache: map[int]*Term{}, known: map[int][2]*big.Int{}, rhos: map[string]*Term{}, factors: map[int][]*Term{}, abstractMonos: abstractMonos}
 	x.collectBounds(hyps)
 	for _, h := range hyps {
